@@ -21,6 +21,9 @@ import (
 type rvflag struct {
 	addr *value // non-nil: addressable, aliases this cell
 	ro   bool   // obtained through an unexported field
+	// embedOnly: ro only because the value is an unexported *embedded* field
+	// (reflect's flagEmbedRO): not inherited by the fields of that struct
+	embedOnly bool
 }
 
 func isReflectValueType(t types.Type) bool {
@@ -696,14 +699,21 @@ func (e *Engine) rvField(v structure, i int) structure {
 	}
 	fld := st.Field(i)
 	f := rvFlag(v)
-	ro := f.ro || !fld.Exported()
+	sticky := f.ro && !f.embedOnly
+	ro, embedOnly := sticky, false
+	if !fld.Exported() {
+		ro = true
+		embedOnly = fld.Embedded() && !sticky
+	}
 	if f.addr != nil {
 		s := (*f.addr).(structure)
-		return mkRVAddr(fld.Type(), &s[i], ro)
+		r := mkRVAddr(fld.Type(), &s[i], ro)
+		r[2] = rvflag{addr: &s[i], ro: ro, embedOnly: embedOnly}
+		return r
 	}
 	s := v[1].(structure)
 	r := mkRV(fld.Type(), copyVal(fld.Type(), s[i]))
-	r[2] = rvflag{ro: ro}
+	r[2] = rvflag{ro: ro, embedOnly: embedOnly}
 	return r
 }
 
@@ -1546,12 +1556,18 @@ func init() {
 		}
 		et := t.Underlying().(*types.Slice).Elem()
 		out := e.rvLoad(s).([]value)
-		for _, x := range e.rvLoad(t2).([]value) {
+		// (snapshot first: the operands may share storage)
+		src := e.rvLoad(t2).([]value)
+		snap := make([]value, len(src))
+		for i, x := range src {
+			snap[i] = copyVal(et, x)
+		}
+		for _, x := range snap {
 			if e.frozen != nil && len(out) < cap(out) {
 				full := out[:cap(out)]
 				e.checkFrozen(&full[len(out)])
 			}
-			out = append(out, copyVal(et, x))
+			out = append(out, x)
 		}
 		return rv(mkRV(t, out))
 	})
